@@ -11,6 +11,7 @@ import sys
 
 from .. import gen
 from .. import refmodel as M
+from .. import salt as SALT
 
 ID = "C09"
 LEVEL = "exploration"
@@ -97,12 +98,25 @@ def judge(case, rep, S):
         # the pI of one object must not depend on which other objects were analysed before it in the same process
         for s in case["chain"]:
             rep.cnt("ordered_multi_object_pI")
-            judge_pi(rep, S["SP"](s), s, sum(1 for c in s if c in M.TITR_POS + M.TITR_NEG))
+            o = S["SP"](s)
+            first = None
+            for rep_i in range(15):                       # the same query many times on one object
+                v = judge_pi(rep, o, s, sum(1 for c in s if c in M.TITR_POS + M.TITR_NEG))
+                if v is None:
+                    break
+                if first is None:
+                    first = v
+                elif v != first:
+                    rep.viol("pI_not_repeatable", "get_isoelectric_point answered %r and then %r (call %d) on %s" % (first, v, rep_i + 1, s))
+                    break
+            rep.cnt("repeated_pI_calls", 15)
         return
     seq = case["s"]
     N = len(seq)
     rng = gen.sub_rng(case["o"], ID)
     obj = S["SP"](seq)
+    if rng.random() < 0.3:
+        SALT.salt(S, obj, seq, rng, rep, cheap=N > 100)
     ntit = sum(1 for c in seq if c in M.TITR_POS + M.TITR_NEG)
     fp = seq.count("P") / N
     if ntit:
